@@ -22,6 +22,7 @@ package eng
 
 import (
 	"bytes"
+	"context"
 	"crypto/sha256"
 	"encoding/hex"
 	"encoding/json"
@@ -501,6 +502,9 @@ func (w *aftersunWorld) applyInject() error {
 
 // ---------------------------------------------------------------- run + observe
 
+// aftersunHung is the pseudo exit status of a run that had to be killed.
+const aftersunHung = 997
+
 func aftersunBinary() string {
 	if p := os.Getenv("VERIF_AFTERSUN_BIN"); p != "" {
 		return p
@@ -527,11 +531,17 @@ func (w *aftersunWorld) runTool() (int, string, error) {
 	if err := os.WriteFile(cfg, []byte(y.String()), 0o644); err != nil {
 		return 0, "", err
 	}
-	cmd := exec.Command(aftersunBinary(), "-c", cfg)
+	// the tool walks a few hundred files: a minute is three orders of magnitude more than it needs
+	ctx, cancel := context.WithTimeout(context.Background(), 60*time.Second)
+	defer cancel()
+	cmd := exec.CommandContext(ctx, aftersunBinary(), "-c", cfg)
 	var out bytes.Buffer
 	cmd.Stdout = &out
 	cmd.Stderr = &out
 	err := cmd.Run()
+	if ctx.Err() != nil {
+		return aftersunHung, out.String(), nil
+	}
 	code := 0
 	if err != nil {
 		ee, ok := err.(*exec.ExitError)
@@ -792,6 +802,10 @@ func aftersunRunCase(c *aftersunCase, tr *Trace, st *Stats, workdir string) (fai
 	code, out, err := w.runTool()
 	if err != nil {
 		w.fail("harness", "running partial-aftersun: %v\n%s", err, out)
+		return w.fails
+	}
+	if code == aftersunHung {
+		w.fail("hang", "partial-aftersun did not finish within a minute on this directory (killed); last output:\n%s", aftersunTail(out))
 		return w.fails
 	}
 	if code > 2 {
